@@ -117,8 +117,8 @@ def run_api(prog, inputs, neutral, modulus=None, ignore=False, between=None, chu
     return out
 
 
-def run_ref(prog, inputs, strict=False, always_guard=False, chunks=None, extra=None):
-    model.reset(prog.bl, prog.res, strict)
+def run_ref(prog, inputs, strict=False, always_guard=False, chunks=None, extra=None, p=None):
+    model.reset(prog.bl, prog.res, strict, p)
     ns = dict(model.NAMES)
     if always_guard:
         ns["guarded"] = lambda cond: (lambda fn: fn)
@@ -347,7 +347,7 @@ class Gen:
         try:
             exec(compile(stmt, GEN_FILENAME, "exec"), sh)
             return True
-        except (model.OutOfDomain, model.MustRaise, TypeError, ZeroDivisionError, OverflowError, ValueError,
+        except (model.OutOfDomain, model.MustRaise, model.ModelGap, TypeError, ZeroDivisionError, OverflowError, ValueError,
                 IndexError, AttributeError):
             return False
 
